@@ -548,12 +548,15 @@ func (e *env) delCase(r *mc.Run, c Case) []verdict {
 	if c.Single {
 		mode = "single"
 	}
-	// features of the named keys relative to the contents
-	feat := "plain"
-	for k := range named {
-		for p := range present {
-			if strings.HasPrefix(p, k+"/") {
-				feat = "named-key-is-a-directory-of-other-keys"
+	// how the wrongly removed keys relate to the named keys
+	feat := "unrelated"
+	for _, v := range wronglyGone {
+		for k := range named {
+			if strings.HasPrefix(v, k+"/") && feat == "unrelated" {
+				feat = "named-key-is-a-directory-above-the-victim"
+			}
+			if strings.HasPrefix(k, v+"/") {
+				feat = "victim-is-a-path-prefix-of-a-named-key"
 			}
 		}
 	}
@@ -566,7 +569,7 @@ func (e *env) delCase(r *mc.Run, c Case) []verdict {
 	}
 	if len(notDeleted) > 0 {
 		outcome += "+keeps-named"
-		vs = append(vs, verdict{fmt.Sprintf("delete-keeps-named-key:mode=%s:%s", mode, feat),
+		vs = append(vs, verdict{fmt.Sprintf("delete-keeps-named-key:mode=%s", mode),
 			fmt.Sprintf("contents %v, %s delete of %v (status %d): named keys %v are still readable", keys(present), mode, c.Delete, status, notDeleted)})
 	}
 	e.kase(r, fmt.Sprintf("del|%s|present=%d|named=%d|%s|%s", mode, len(present), len(c.Delete), feat, outcome))
